@@ -813,6 +813,9 @@ func (c *vfGateConn) run(k vfGateCmd, ans vfGateAns, last bool) (op string, impl
 				}
 				if okTLS {
 					replies = append(replies, "OK")
+					if c.tlsDone {
+						in.out.hist["tls-second-handshake-ok"]++
+					}
 					c.tlsDone = true
 				} else {
 					// the server's complaint is written in plaintext into what the client reads as a TLS
@@ -1276,8 +1279,10 @@ func (in *vfGateInst) identify(c *vfGateConn) vfGateCmd {
 	default:
 		k.Cert = "trusted"
 	}
-	if c.tlsDone {
-		k.Cert = "nohs" // a second handshake is not attempted by this client
+	if c.tlsDone && r.Intn(2) == 0 {
+		// half of the time no second handshake is attempted; otherwise (audit B24) the client handshakes AGAIN, on the
+		// raw socket underneath its first TLS session — that is where the server runs tls.Server(c.Conn)
+		k.Cert = "nohs"
 	}
 	if !k.HbOff && r.Intn(6) == 0 {
 		k.HbOn = true // audit B24: a positive interval after `-1` re-enables heartbeats, SUB is accepted again
